@@ -137,6 +137,13 @@ def check(pid: str, tier: str, seed: int):
                         if json.dumps(h._to_dict(), default=str) != a:
                             pv.append('a graph generated before another one from the same model was attached to / analysed differs from a graph generated on its own')
                             break
+                    # a regeneration of a graph that had attackers attached, followed by the same stages: the same graph again
+                    with C.time_limit(30):
+                        h1.regenerate_graph()
+                        h1.attach_attackers()
+                        calculate_viability_and_necessity(h1)
+                    if json.dumps(h1._to_dict(), default=str) != a or edge_lists(h1) != edge_lists(graphs[0]):
+                        pv.append('generate / attach / analyse / regenerate_graph / attach / analyse differs from a fresh generation with the same stages')
                     hid = {id(x) for x in h1.nodes} | {id(x) for x in h1.attackers}
                     if any(id(x) in hid for at in h2.attackers for x in at.reached_attack_steps + at.entry_points) or \
                             any(id(at) in hid for x in h2.nodes for at in x.compromised_by):
@@ -220,6 +227,20 @@ def check(pid: str, tier: str, seed: int):
                     pass
             else:
                 mar = core
+            # the wrapper with its optional stages switched off, against the direct API running the same stages
+            from maltoolbox.wrappers import create_attack_graph
+            for fa, fc in ((False, True), (True, False), (False, False)):
+                try:
+                    with C.time_limit(40):
+                        gw = create_attack_graph(mar, mfile, attach_attackers=fa, calc_viability_and_necessity=fc)
+                        lg2 = LanguageGraph.from_mar_archive(mar)
+                        gd = AttackGraph(lg2, Model.load_from_file(mfile, LanguageClassesFactory(lg2)))
+                        if fa: gd.attach_attackers()
+                        if fc: calculate_viability_and_necessity(gd)
+                    if json.dumps(gw._to_dict(), default=str) != json.dumps(gd._to_dict(), default=str):
+                        pv.append(f'create_attack_graph(attach_attackers={fa}, calc_viability_and_necessity={fc}) differs from the direct API running the same stages')
+                except Exception as e:
+                    pv.append(f'create_attack_graph(attach_attackers={fa}, calc_viability_and_necessity={fc}) raised {type(e).__name__}')
             batch_mar.append((label, mar, mfile))
             metas.append({'label': label, 'prop_viol': pv, 'nodes': len(graphs[0].nodes) if graphs else 0,
                           'serialized': json.dumps(PG_canon(graphs[0]), default=str) if graphs else None})
